@@ -119,6 +119,12 @@ def generate(seed, tier):
     rec["replace"] = mrng.choice((1, 2, 10, 10))
     rec["extras"] = mrng.choice(("none", "none", "filter", "mask", "terms"))
     rec["filterq"] = Q.gen_query(qr, cfg, depth=1, simple=True)
+    # collapsing (statement: "with and without filter/mask/collapse/terms recording"): the limited collapsed
+    # search must be the first k entries of the unlimited collapsed search
+    xr = random.Random("%s/collapse" % seed)
+    if "n" in cfg.fields and xr.random() < 0.25:
+        rec["extras"] = "collapse"
+        rec["collapse_limit"] = xr.choice((1, 1, 2, 3))
     return rec
 
 
@@ -199,6 +205,9 @@ def check_topn(s, ix, record, counters):
             extras["mask"] = Q.build(record["filterq"], mi.schema)
         elif record.get("extras") == "terms":
             extras["terms"] = True
+        elif record.get("extras") == "collapse":
+            extras["collapse"] = "n"
+            extras["collapse_limit"] = record.get("collapse_limit", 1)
         for spec in record["queries"]:
             q = Q.build(spec, mi.schema)
             desc = "%s, weighting %s, extras %s" % (Q.show(spec), record["weighting"], record.get("extras"))
@@ -256,6 +265,8 @@ def check_topn(s, ix, record, counters):
                                         % (desc, k, i, dn, sc, edn, esc, top[:6], exp[:6]),
                                         sig="topn:winner" if dn != edn else "topn:score")
                 n = len(r)
+                if record.get("extras") == "collapse":
+                    continue    # what len() counts under collapsing is not stated anywhere: not judged
                 if n != total:
                     raise Violation("len_results_exact", "%s: limit=%d: len(results)=%d, exhaustive search matched %d" % (desc, k, n, total),
                                     sig="len_results:limit")
